@@ -147,5 +147,12 @@ CHECKS["C16"] = dict(
     note="ResponseHeaderTimeout is part of the scenario; 30s watchdog re-run 5x; stalls inside the body excluded (no timeout applies there)",
     parts=[dict(bin="vh", part="c16", shards=16, budget=dict(quick=120, thorough=1500))])
 
+CHECKS["C20"] = dict(
+    level="exploration", engine="enum", design_ref="DESIGN.md §5 C20",
+    technique="exhaustive enumeration of middleware stacks (programs) x handler behaviours over a real net/http server and raw TCP client, differential against the bare handler, plus one intervening configuration per stack position",
+    text="All 584 stacks of depth <= 3 (37448 of depth <= 5 in thorough) over the eight middlewares x 39 handler behaviours: handler invoked exactly once, same status, end-to-end headers and body bytes as the bare handler, Hijacker available (and used), Flusher available and a flushed chunk seen by the client before the handler continues (except below a buffer); for every position that can intervene: documented status, one complete response, zero handler invocations.",
+    note="frozen clock; framing headers chosen by net/http not compared; 5s wait for a flushed chunk only matters when flushing is broken",
+    parts=[dict(bin="vh", part="c20", shards=16, budget=dict(quick=120, thorough=1500))])
+
 NOT_APPLICABLE = [dict(property_id=p, reason="check not built yet in this revision (work in progress; see DESIGN.md for the plan)")
                   for p in ALL if p not in CHECKS]
